@@ -34,9 +34,12 @@ ASSUMPTIONS = [
     "COMPLEX-VALUEs always list one entry per sub-parameter; one COMPARAM-REF per (parameter, qualifier) and layer",
     "get_can_fd_baudrate is asserted only when there is no CAN receive id (None expected) or when the content of CP_CANFDTxMaxDataLength contains 'CANFD'; contents of CP_CANFDTxMaxDataLength have the form 'TX_DL=<n>...'",
     "ECU-SHARED-DATA layers have no communication parameters and are not queried",
+    "PROT-STACK-SNREF of a COMPARAM-REF does not take part in the override key (statement: overridden per parameter and protocol)",
+    "COMPLEX-VALUE entries map positionally to the sub-parameters in document order, a nested COMPLEX-COMPARAM occupies one slot; only simple sub-parameters are looked up with get_subvalue (nested ones: sub-parameter order and raw value are compared)",
     "Database.refresh() is the way to make edits of hierarchy_element_raw.comparam_refs effective (as examples/mksomersaultmodifiedpdx.py does for other raw-layer edits); in-memory instances use the parser's representation (empty value = '')",
 ]
-MUST_HIT = ["refresh-after-edit:value-changed", "refresh-after-edit:descendant-changed",
+MUST_HIT = ["nested-complex-before-simple", "nested-inner-omitted", "override-prot-stack-differs",
+            "override-prot-stack-one-sided", "refresh-after-edit:value-changed", "refresh-after-edit:descendant-changed",
             "refresh-after-edit:other-instance-wins", "edit:add", "edit:remove", "edit:set", "override-by-child", "qualified-and-generic", "generic-listed-before-specific", "default-simple", "default-sub",
             "parents-different-priority", "ambiguous-equal-priority", "absent-param", "sub-param-absent",
             "protocol-object-arg", "form:VALUE", "form:SIMPLE", "form:COMPLEX", "inherited-only",
@@ -82,9 +85,11 @@ def read_all(hier: dict, db, cls: set) -> tuple[list, bool]:
     active = _active_emulations()
     protos = [l["name"] for l in hier["layers"] if l["type"] == "PROTOCOL"]
     sub = hier["subset"]
-    subnames = [s[0] for s in sub["complex"][cpm.COMPLEX_NAME]]
-    if len(subnames) < 3:
+    csubs = sub["complex"][cpm.COMPLEX_NAME]
+    subnames = cpm.sub_names(csubs)
+    if not all(n in subnames for n in cpm.SUB_NAMES):
         cls.add("sub-param-absent")
+    nested_at = [i for i, e in enumerate(csubs) if isinstance(e, dict)]
     for l in hier["layers"]:
         for cp in l.get("comparams", []):
             cls.add(f"form:{cp['form']}")
@@ -122,6 +127,15 @@ def read_all(hier: dict, db, cls: set) -> tuple[list, bool]:
                                            local=any(cp["param"] == a and cp.get("protocol") == b for cp in l.get("comparams", []))))
                 if eff and not l.get("comparams"):
                     cls.add("inherited-only")
+                # a local COMPARAM-REF overrides an inherited one whose PROT-STACK-SNREF differs
+                for cp in l.get("comparams", []):
+                    key = (cp["param"], cp.get("protocol"))
+                    for p in l.get("parents", []):
+                        for i in (m.effective(p["layer"]).get(key, []) if im.layers[p["layer"]]["type"] != "ECU-SHARED-DATA" else []):
+                            if i.get("prot_stack") != cp.get("prot_stack"):
+                                cls.add("override-prot-stack-differs")
+                                if (i.get("prot_stack") is None) != (cp.get("prot_stack") is None):
+                                    cls.add("override-prot-stack-one-sided")
                 prios = {inherit.PRIORITY[im.layers[p["layer"]]["type"]] for p in l.get("parents", [])
                          if im.layers[p["layer"]]["type"] != "ECU-SHARED-DATA" and m.effective(p["layer"])}
                 if len(prios) > 1:
@@ -132,7 +146,24 @@ def read_all(hier: dict, db, cls: set) -> tuple[list, bool]:
                     inst = next((i for i in eff[key] if i["uid"] == _uid(cp)), None)
                     if inst is None:
                         continue
+                    if inst.get("prot_stack") != cp.prot_stack_snref:
+                        fails.append(_fail("instance-content", f"layer {ln}: {inst['uid']}.prot_stack_snref = "
+                                           f"{cp.prot_stack_snref!r}, expected {inst.get('prot_stack')!r}", hier, "prot-stack"))
                     if inst["param"] == cpm.COMPLEX_NAME:
+                        # positional mapping in document order: sub-parameter list of the spec and the raw value
+                        got_names = [sp.short_name for sp in cp.spec.subparams]
+                        if got_names != subnames:
+                            fails.append(_fail("subparam-order", f"layer {ln}: sub-parameters of {cpm.COMPLEX_NAME} are "
+                                               f"{got_names}, document order is {subnames}", hier, "subparam-order",
+                                               nested_at=nested_at))
+                        if cp.value != _mem_value(inst):
+                            fails.append(_fail("raw-value", f"layer {ln}: {inst['uid']}.value = {cp.value!r}, expected "
+                                               f"{_mem_value(inst)!r}", hier, "raw-value", nested_at=nested_at))
+                        if nested_at:
+                            if nested_at[0] < len(csubs) - 1:
+                                cls.add("nested-complex-before-simple")
+                            if any(v is None for i in nested_at for v in inst["value"][i]):
+                                cls.add("nested-inner-omitted")
                         for sn in cpm.SUB_NAMES:
                             e = m.subvalue(inst, sn)
                             dflt = m.relies_on_default(inst, sn)
@@ -279,8 +310,10 @@ def apply_edit_ir(hier: dict, edit: dict) -> dict:
 
 def _mem_value(cp: dict):
     """the in-memory representation the parser produces for the value of a COMPARAM-REF"""
+    def cv(vals):
+        return [cv(v) if isinstance(v, list) else ("" if v is None else v) for v in vals]
     if cp["form"] == "COMPLEX":
-        return ["" if v is None else v for v in cp["value"]]
+        return cv(cp["value"])
     return "" if cp["value"] is None else cp["value"]
 
 
@@ -297,7 +330,7 @@ def apply_edit_db(hier: dict, db, edit: dict) -> None:
         inst = ComparamInstance(
             value=_mem_value(cp),
             description=Description(text="<p>d</p>", external_docs=[], text_identifier=cp["uid"]),
-            protocol_snref=cp.get("protocol"), prot_stack_snref=None,
+            protocol_snref=cp.get("protocol"), prot_stack_snref=cp.get("prot_stack"),
             spec_ref=OdxLinkRef(f"{sub}.{cp['param']}", [OdxDocFragment(sub, DocType.COMPARAM_SUBSET)]))
         lst.insert(min(edit.get("pos", len(lst)), len(lst)), inst)
         return
@@ -392,14 +425,21 @@ def add_comparams(draw, hier):
     from hypothesis import strategies as st
     num = st.integers(0, 0x7FF).map(str)
     nsub = draw(st.sampled_from([2, 3, 3]))
+    csubs = [[sn, draw(num)] for sn in cpm.SUB_NAMES[:nsub]]
+    if draw(st.integers(0, 7)) < 5:      # a nested complex sub-parameter at any position (document order matters)
+        csubs.insert(draw(st.integers(0, nsub)),
+                     {"name": "CP_Nested", "subs": [["CP_N1", draw(num)], ["CP_N2", draw(num)]][:draw(st.sampled_from([1, 2, 2]))]})
     simple = {}
     for n in cpm.SIMPLE_NAMES:
         simple[n] = draw(st.sampled_from(DL_VALUES)) if n == "CP_CANFDTxMaxDataLength" else draw(num)
     hier["subset"] = {"name": "SUB", "simple": simple,
-                      "complex": {cpm.COMPLEX_NAME: [[sn, draw(num)] for sn in cpm.SUB_NAMES[:nsub]]}}
+                      "complex": {cpm.COMPLEX_NAME: csubs}}
     hier["spec"] = {"name": "cs"}
     if draw(st.booleans()):
         hier["spec"]["prot_stack"] = "ps"
+    psd = draw(st.sampled_from([0, 0, 3, 5]))      # probability psd/8 that a COMPARAM-REF carries a PROT-STACK-SNREF
+    if psd:
+        hier["spec"]["prot_stacks"] = ["ps", "ps2"]
     protos = [l["name"] for l in hier["layers"] if l["type"] == "PROTOCOL"][:2]
     nfocus = draw(st.sampled_from([1, 1, 2, 3, 4]))
     pool = cpm.SIMPLE_NAMES + [cpm.COMPLEX_NAME] * 4
@@ -426,7 +466,7 @@ def add_comparams(draw, hier):
                 k += 1
                 uid = f"{l['name']}:{param}:{q}:{k}"
                 if param == cpm.COMPLEX_NAME:
-                    val = [None if draw(st.integers(0, 7)) < empt else draw(num) for _ in range(nsub)]
+                    val = draw_complex_value(draw, csubs, empt, num)
                     cps.append({"param": param, "protocol": q, "form": "COMPLEX", "value": val, "uid": uid})
                 else:
                     if draw(st.integers(0, 7)) < empt:
@@ -437,8 +477,23 @@ def add_comparams(draw, hier):
                         val = draw(num)
                     cps.append({"param": param, "protocol": q, "form": draw(st.sampled_from(["SIMPLE", "SIMPLE", "VALUE"])),
                                 "value": val, "uid": uid})
+        for cp in cps:
+            if psd and draw(st.integers(0, 7)) < psd:
+                cp["prot_stack"] = draw(st.sampled_from(["ps", "ps", "ps2"]))
         if cps:
             l["comparams"] = list(draw(st.permutations(cps)))
+
+
+def draw_complex_value(draw, csubs, empt, num):
+    """one entry per sub-parameter in document order; a nested complex sub-parameter gets a nested list"""
+    from hypothesis import strategies as st
+    out = []
+    for e in csubs:
+        if isinstance(e, dict):
+            out.append([None if draw(st.integers(0, 7)) < empt else draw(num) for _ in e["subs"]])
+        else:
+            out.append(None if draw(st.integers(0, 7)) < empt else draw(num))
+    return out
 
 
 def history_strategy():
@@ -453,14 +508,15 @@ def history_strategy():
         if not layers:
             return {"hier": hier, "edits": []}
         protos = [l["name"] for l in hier["layers"] if l["type"] == "PROTOCOL"][:2]
-        nsub = len(hier["subset"]["complex"][cpm.COMPLEX_NAME])
+        csubs = hier["subset"]["complex"][cpm.COMPLEX_NAME]
+        stacks = hier["spec"].get("prot_stacks") or []
         used = sorted({c["param"] for l in hier["layers"] for c in l.get("comparams", [])})
 
         def new_value(param):
             if draw(st.integers(0, 7)) < 2:
-                return [None] * nsub if param == cpm.COMPLEX_NAME else None
+                return draw_complex_value(draw, csubs, 8, num) if param == cpm.COMPLEX_NAME else None
             if param == cpm.COMPLEX_NAME:
-                return [None if draw(st.integers(0, 7)) < 2 else draw(num) for _ in range(nsub)]
+                return draw_complex_value(draw, csubs, 2, num)
             if param == "CP_CANFDTxMaxDataLength":
                 return draw(st.sampled_from(DL_VALUES))
             return draw(num)
@@ -485,6 +541,8 @@ def history_strategy():
                     e = {"op": "add", "layer": ln, "pos": draw(st.integers(0, len(have))),
                          "cp": {"param": param, "protocol": q, "form": form, "value": new_value(param),
                                 "uid": f"{ln}:{param}:{q}:edit{k}"}}
+                    if stacks and draw(st.integers(0, 7)) < 3:
+                        e["cp"]["prot_stack"] = draw(st.sampled_from(stacks))
             elif op == "remove":
                 e = {"op": "remove", "layer": ln, "uid": draw(st.sampled_from([c["uid"] for c in have]))}
             else:
@@ -518,7 +576,7 @@ def run_shard(spec, seed, tier):
                 new.append(f)
         return new
 
-    n = 400 if tier == "quick" else 3000
+    n = 320 if tier == "quick" else 3000
     found = core.hyp_search(history_strategy(), body, seed, n)
     if found:
         res.failures.extend(found)
